@@ -288,6 +288,8 @@ def check(repo):
                                         s.name, _fmt(rk)[:140], " | ".join(_fmt(x)[:120] for x in sorted(wxor, key=repr)[:4])), witness=desc)
         if s.name == "CGKO06.SSE1":
             _check_sse1_chain(repo, r1, s, enc, fte, L)
+        if s.name == "CT14.Pi":
+            _check_ct14_levels(repo, r1, s, enc, search, fte, fts)
         _check_blocks(repo, r2, s, enc, search, fte, fts, L)
     # exhaustive scans: a loop over data read from the index (a bucket, a list of pointers) examines every element
     r5 = Rule("R1.5", "loops over data read from the index examine every element; size guards accept every storable size")
@@ -379,6 +381,63 @@ def _check_sse1_chain(repo, r1, s, enc, fte, L):
                             "SSE-1: the node stored at %s carries the pointer %s, which is not the address of the next counter value: the list walk "
                             "breaks after this node" % (_fmt(addr)[:120], _fmt(p)[:120]), witness=desc)
     r1.require(found >= 1, enc, "SSE-1 node chain", "SSE-1: no node carrying a next-pointer found in _Enc")
+
+
+def _check_ct14_levels(repo, r1, s, enc, search, fte, fts):
+    """On both sides one and the same level variable selects the table, is encoded into the label and sets the block size 2^level."""
+    def i2b_args(t):
+        return [x[2][0] for x in walk(t) if isinstance(x, tuple) and x and x[0] == "call" and x[1].endswith("::int_to_bytes") and x[2]]
+
+    def pow2_exps(t):
+        return [x[3] for x in walk(t) if isinstance(x, tuple) and x and x[0] == "binop" and x[1] == "Pow" and x[2] == ("const", 2)]
+    # writer: L_list[j].append((label, block))
+    found = 0
+    for name, ms in fte.mutations().items():
+        for (mn, kind, payload, subs) in ms:
+            if kind != "append" or len(subs) != 1:
+                continue
+            idx = fte.term(subs[0], mn)
+            arg = fte.term(payload.args[0], mn) if payload.args else None
+            if arg is None or arg[0] != "tuple" or len(arg[1]) != 2:
+                continue
+            label, block = arg[1]
+            la = i2b_args(label)
+            if not la:
+                continue
+            found += 1
+            # the block is a join over range(c, c + 2**j)
+            cnt_ok = any(e == idx for e in pow2_exps(block))
+            ok = all(a == idx for a in la) and cnt_ok
+            r1.require(ok, enc, "writer level variable consistent",
+                       "CT14._Enc stores at level %s a label that encodes %s and a block of %s ciphertexts: table index, encoded level and block size must be one variable" % (
+                           show(idx, maxdepth=3), [show(a, maxdepth=3) for a in la], [("2**" + show(e, maxdepth=3)) for e in pow2_exps(block)][:2]), payload)
+    r1.require(found >= 1, enc, "writer level facts", "CT14._Enc: no per-level table store found")
+    # reader: HT_list[i].get(label(i)); parse(..., 2 ** i)
+    found = 0
+    for n in fts.cfg.nodes:
+        if n.stmt is None or n.ast is None or n.kind != "stmt":
+            continue
+        for c in ast.walk(n.stmt):
+            if isinstance(c, ast.Call) and isinstance(c.func, ast.Attribute) and c.func.attr == "get" and isinstance(c.func.value, ast.Subscript) and c.args:
+                idx = fts.term(c.func.value.slice, n.id)
+                label = fts.term(c.args[0], n.id)
+                la = i2b_args(label)
+                if not la:
+                    continue
+                found += 1
+                r1.require(all(a == idx for a in la), search, "reader level variable consistent",
+                           "CT14._Search looks into table %s for a label that encodes level %s" % (show(idx, maxdepth=3), [show(a, maxdepth=3) for a in la]), c)
+                # the parse count in the same loop body
+                for a in ancestors(c):
+                    if isinstance(a, ast.For):
+                        for c2 in ast.walk(a):
+                            if isinstance(c2, ast.Call) and (dotted(c2.func) or "").endswith("parse_identifiers_from_block_given_entry_count_in_one_block") and len(c2.args) >= 2:
+                                nid2 = fts.cfg.node_of_expr(c2)
+                                cnt = fts.term(c2.args[1], nid2[0]) if nid2 else None
+                                r1.require(cnt == ("binop", "Pow", ("const", 2), idx), search, "reader block size is 2^level",
+                                           "CT14._Search splits the block of level %s into %s ciphertexts" % (show(idx, maxdepth=3), show(cnt, maxdepth=3) if cnt else None), c2)
+                        break
+    r1.require(found >= 1, search, "reader level facts", "CT14._Search: no per-level lookup found")
 
 
 def _subterms(t):
@@ -824,6 +883,9 @@ VARIANTS = [
       "s = max(1, math.ceil(l * self.config.param_actual_storage_level_ratio))", "s = math.ceil(l * self.config.param_actual_storage_level_ratio)")]),
     V("piptr-pointer-loop-breaks", "fire", "R1.5", [("schemes/CJJ14/PiPtr/construction.py", "PiPtr._Search",
       "            pass\n", "            if len(result) >= self.config.param_B:\n                break\n")]),
+    V("ct14-writer-level-shifted", "fire", "R1.1", [("schemes/CT14/Pi/construction.py", "Pi._Enc", "                L_list[j].append((l, d))", "                L_list[max(j - 1, 0)].append((l, d))")]),
+    V("ct14-reader-block-size", "fire", "R1.", [("schemes/CT14/Pi/construction.py", "Pi._Search",
+      "parse_identifiers_from_block_given_entry_count_in_one_block(d, 2 ** i)", "parse_identifiers_from_block_given_entry_count_in_one_block(d, 2 ** (i + 1))")]),
     V("benign-rename-locals", "silent", None, [(_PB, "PiBas._Search", "            addr = self.config.prf_f(K1, int_to_bytes(c))\n            cipher = D.get(addr)",
       "            label = self.config.prf_f(K1, int_to_bytes(c))\n            cipher = D.get(label)")]),
     V("benign-for-count", "silent", None, [(_PB, "PiBas._Search",
